@@ -82,6 +82,10 @@ func c01DefineR4(e *env.Env) {
 	e.Define("hBytes", []byte("añ"))
 	e.Define("hU16s", []uint16{1, 65535})
 	e.Define("hBadStr", c01BadUTF8)
+	// Go arrays handed in by the host (a script cannot make one)
+	e.Define("hArr", [3]int64{1, 2, 3})
+	e.Define("hArrI", [2]interface{}{int64(1), "a"})
+	e.Define("hArrU", [2]uint8{1, 255})
 }
 
 // unsigned scalar operands
@@ -93,7 +97,7 @@ var c01UintPartners = []string{"vInt", "vNeg", "vMax", "-9223372036854775807 - 1
 	"make(int32)", "make(int)", "hI8", "hI16", "hF32", "make(float32)", "toRuneSlice(\"a\")[0]", "vTSlice[0]", "toDuration(5)"}
 
 // containers of unsigned numbers
-var c01UintContainers = []string{"vU64s", "vU8s", "vU32s", "vUs", "vBytes", "hBytes", "hU16s", "toByteSlice(\"ab\")", "make([]uint64, 1)", "[]uint32{7}"}
+var c01UintContainers = []string{"hArr", "hArrI", "hArrU", "vU64s", "vU8s", "vU32s", "vUs", "vBytes", "hBytes", "hU16s", "toByteSlice(\"ab\")", "make([]uint64, 1)", "[]uint32{7}"}
 
 // strings with multi-byte characters; the last one is host-bound and not valid UTF-8
 var c01NonASCII = []string{"é", "日本", "aé", "éa", "naïve", "€5", "😀", "áb", "héllo", "ab", ""}
@@ -114,12 +118,12 @@ func init() {
 		c01Fixed = append(c01Fixed, "f = func("+c01ParamList(126, false)+") { return 1 }", "f = func("+c01ParamList(126, true)+") { return 1 }", "func big("+c01ParamList(300, false)+") { }; big(1)")
 	}
 	c01Operands = append(c01Operands, c01UintOperands...)
-	c01Operands = append(c01Operands, "vU64s", "vU8s", "vBytes", "hBytes", "hU16s", "hI8", "hI16", "hF32", "vS1", "vS2", "vS3", "vS4", "hBadStr", "\"日本\"", "\"é\"")
+	c01Operands = append(c01Operands, "hArr", "hArrI", "hArrU", "vU64s", "vU8s", "vBytes", "hBytes", "hU16s", "hI8", "hI16", "hF32", "vS1", "vS2", "vS3", "vS4", "hBadStr", "\"日本\"", "\"é\"")
 	c01NumOperands = append(c01NumOperands, c01UintOperands...)
 	c01NumOperands = append(c01NumOperands, "hI8", "hI16", "hF32")
 	c01Templates = append(c01Templates, c01R4Templates...)
 	c01Fixed = append(c01Fixed, c01R4Fixed...)
-	c01SoupTokens = append(c01SoupTokens, "hU", "hU64", "hU8", "vU64s", "vBytes", "hBytes", "uint64", "byte", "vS2", "\"日本\"", "\"é\"", "[1]", "[len(vS2)-1]")
+	c01SoupTokens = append(c01SoupTokens, "hArr", "hArrI", "hU", "hU64", "hU8", "vU64s", "vBytes", "hBytes", "uint64", "byte", "vS2", "\"日本\"", "\"é\"", "[1]", "[len(vS2)-1]")
 	wk.RegisterChild("c01storm", c01StormChild)
 }
 
